@@ -254,12 +254,20 @@ func init() {
 			}
 			arr := st.heapGet("S:byte", SArr(SInt, SArr(SInt, SInt)))
 			content := Select(arr, b.X)
+			// chained digit extraction (q_0 = v; byte_k = q_k mod 256; q_{k+1} = q_k div 256) is much easier for the solvers
+			// than independent (v div 256^k) mod 256 terms
+			digits := make([]*Term, n)
+			q := v
+			for k := 0; k < n; k++ {
+				digits[k] = Mod(q, Num(256))
+				q = Div(q, Num(256))
+			}
 			for i := 0; i < n; i++ {
 				sh := i
 				if !little {
 					sh = n - 1 - i
 				}
-				content = Store(content, Add(b.Off, Num(int64(i))), Mod(Div(v, Pow2(uint(8*sh))), Num(256)))
+				content = Store(content, Add(b.Off, Num(int64(i))), digits[sh])
 			}
 			st.heapSet("S:byte", Store(arr, b.X, content))
 			return &Val{K: KUnit}, st
